@@ -617,6 +617,10 @@ class Scope:
     rng_key = (child_rng_token, name)
     if rng_key in self.rng_counters:
       rng_counters = self.rng_counters.get(rng_key)  # type: ignore
+      # the child may have been created first by a scope with fewer streams
+      # (e.g. inside a lifted function that lifts only some of them).
+      for key in rngs:
+        rng_counters.setdefault(key, 0)
     else:
       rng_counters = {key: 0 for key in rngs}
       self.rng_counters[rng_key] = rng_counters  # type: ignore
